@@ -377,11 +377,30 @@ func init() {
 					if isNilConst(b.X) {
 						other = b.Y
 					}
-					ex, ok := other.(*ssa.Extract)
-					if !ok || ex.Tuple != call {
-						return false
+					nilEdge := (b.Op == token.NEQ && !want) || (b.Op == token.EQL && want)
+					if ex, ok := other.(*ssa.Extract); ok && ex.Tuple == call {
+						return nilEdge
 					}
-					return (b.Op == token.NEQ && !want) || (b.Op == token.EQL && want)
+					// one error variable for the sequence (`a, err := load(); if err == nil { b, err = parse(a) }; if err != nil
+					// { … return }`): the φ of the steps' errors is nil only if the step that ran last returned nil, and a
+					// later step runs only after the earlier ones succeeded
+					if ph, ok := other.(*ssa.Phi); ok && nilEdge {
+						has := false
+						for _, e := range ph.Edges {
+							ex, isEx := e.(*ssa.Extract)
+							if !isEx || !isErrorType(ex.Type()) {
+								return false
+							}
+							if _, isCall := ex.Tuple.(*ssa.Call); !isCall {
+								return false
+							}
+							if ex.Tuple == call {
+								has = true
+							}
+						}
+						return has
+					}
+					return false
 				})
 			}
 			c.check(errNil(load), "cache store after successful load", p.instrPos(mu), "guarded by load err == nil", "the cache can be updated although loading the file failed")
@@ -454,7 +473,7 @@ func init() {
 	})
 
 	register(&Rule{
-		ID: "C15.R2", Props: []string{"C15", "C10", "C20"}, Min: 3, // C10: a long-used engine must answer like a fresh one
+		ID: "C15.R2", Props: []string{"C15", "C10", "C20", "C08"}, Min: 3, // C10: a long-used engine must answer like a fresh one
 		Doc: "a cache hit is validated: returning a cached entry is guarded by Time.Equal(stored mtime, mtime of an fs.Stat made in this call) (or by the documented 'filesystem has no mtimes' zero test), and a failed Stat never leads to a hit",
 		Run: func(p *Prog, c *Ctx) {
 			fn := p.MustFn("(*vuego.Vue).loadCachedWithFrontMatter")
@@ -894,7 +913,7 @@ func init() {
 	})
 
 	register(&Rule{
-		ID: "C17.R6", Props: []string{"C17"}, Min: 2,
+		ID: "C17.R6", Props: []string{"C17", "C13"}, Min: 2,
 		Doc: "a path step reports absence only after every resolution strategy was tried: in the step resolver every `return nil` is dominated by the call of the reflective struct/map/slice resolver (no early give-up for numeric-looking segments), and a failed resolver result is what makes it nil",
 		Run: func(p *Prog, c *Ctx) {
 			fn := p.MustFn("(*vuego.Stack).resolveStep")
@@ -1183,7 +1202,7 @@ func init() {
 	})
 
 	register(&Rule{
-		ID: "C17.R7", Props: []string{"C17", "C08", "C03", "C04"}, Min: 2,
+		ID: "C17.R7", Props: []string{"C17", "C08", "C03", "C04", "C02"}, Min: 2,
 		Doc: "struct fields are addressed by exact name or exact JSON tag: in the struct resolver the requested name is compared by string equality with the tag's name part (or used for FieldByName), never by prefix/substring/case-folding tests, so that `user` cannot resolve to `user_id` and a non-existent name stays absent",
 		Run: func(p *Prog, c *Ctx) {
 			fn := p.MustFn("reflect.resolveStruct")
